@@ -109,3 +109,15 @@ def de_error(I, m, a, dt):
 def fmt_format(I, m, a, dt): return StrS.from_text('<formatted message>')
 @model(r'^(?:std::hint::|core::hint::)?must_use::<.*>$')
 def must_use(I, m, a, dt): return a[0]
+
+# ---- enums: EnumAccess hands out the variant index the format read, VariantAccess its payload ----
+@model(r"^<(\w+) as (?:[\w:]*::)?EnumAccess<'_>>::variant::<(.*)>$")
+def enum_variant(I, m, a, dt):
+    ea = deref(I, a[0])
+    return ok(VTuple([VEnum(m.group(2), f'__field{ea.index}', []), VObj('variantaccess', payload=ea.payload)]))
+@model(r"^<<(\w+) as (?:[\w:]*::)?EnumAccess<'_>>::Variant as (?:[\w:]*::)?VariantAccess<'_>>::unit_variant$")
+def variant_unit(I, m, a, dt): return ok(VUnit())
+@model(r"^<<(\w+) as (?:[\w:]*::)?EnumAccess<'_>>::Variant as (?:[\w:]*::)?VariantAccess<'_>>::newtype_variant::<(.*)>$")
+def variant_newtype(I, m, a, dt):
+    va = deref(I, a[0])
+    return I.call(f"<{m.group(2)} as Deserialize<'_>>::deserialize::<__D>", [deser(va.payload)])
